@@ -126,7 +126,10 @@ def check_case(case):
 
 @st.composite
 def cases(draw):
-    prog = draw(G.programs(max_nodes=5, allow_nested=False, allow_wf_split=False))
+    prog = draw(st.one_of(
+        G.mixed_programs(max_nodes=5, allow_nested=False, allow_wf_split=False),
+        G.template_programs(allow_nested=False, shapes=[
+            "split_consumer_and_independent_chain", "fan_in_independent", "three_way_join"])))
     try:
         jobs = RW.jobs_of(prog)
     except RW.Undefined:
@@ -134,7 +137,15 @@ def cases(draw):
     toks = sorted({j["token"] for j in jobs})
     if len(toks) < 2:
         return None
-    fails = draw(st.lists(st.sampled_from(toks), min_size=1, max_size=min(3, len(toks)), unique=True))
+    by_node = {}
+    for j in jobs:
+        by_node.setdefault(j["node"], set()).add(j["token"])
+    partial = sorted(t for ts in by_node.values() if len(ts) >= 2 for t in ts)
+    if partial and draw(st.booleans()):
+        # partial failure: one job of a node that has several jobs fails, its siblings succeed
+        fails = [draw(st.sampled_from(partial))]
+    else:
+        fails = draw(st.lists(st.sampled_from(toks), min_size=1, max_size=min(3, len(toks)), unique=True))
     return dict(prog=prog, fails=sorted(fails), worker=draw(st.sampled_from(["sched"] * 5 + ["cf"])),
                 choices=draw(st.lists(st.integers(0, 7), max_size=40)), k=None)
 
